@@ -17,8 +17,8 @@
    Three statements are false of the code as it is and are stated as refutations with their witnesses
    (each replayed on the real code, see props/C14.py): the keystores' select-guarded Close under a second
    concurrent call, the refresh manager's unguarded WaitGroup registration, the constructors of the dual
-   provider and of the accelerated client; and the reset handshake of the resettable keystore can wedge
-   its worker so that Close never returns. *)
+   provider and of the accelerated client.  (A fourth, the reset handshake of the resettable keystore that
+   wedged its worker so that Close never returned, has been repaired in /repo; theorem 8 is its positive form.) *)
 From Verif.Lib Require Import GoSem.
 From Verif.Gen Require Import Goroutines.
 From Verif.Model Require Import Lifecycle.
@@ -160,14 +160,15 @@ Theorem c14_unguarded_refuted :
 Proof. exact p_unguarded_refuted. Qed.
 Print Assumptions c14_unguarded_refuted.
 
-(* 8. REFUTED for the code as it is (resettable keystore): ResetCids leaves on its cancelled context while the
-   worker handles opStart; the worker then blocks for ever on the unbuffered answer, and from that state no
-   continuation lets Close return.  Replay: finding resettable-reset-start-abandoned. *)
-Theorem c14_reset_abandoned_close_hangs_refuted :
-  exists s, rk_run rk0 [RkSend; RkCancel] = Some s /\
-    forall evs s', rk_run s evs = Some s' -> rk_close_ret s' = false.
-Proof. exact rk_abandoned_never_closes. Qed.
-Print Assumptions c14_reset_abandoned_close_hangs_refuted.
+(* 8. The start handshake of a reset on the resettable keystore cannot wedge Close: the caller of ResetCids
+   collects the worker's answer before it looks at its context (the repaired code; the earlier `select` on
+   ctx.Done() left the worker blocked on its unbuffered answer and Close hanging: finding
+   resettable-reset-start-abandoned, fixed in /repo): from every reachable state of the handshake there is a
+   continuation in which Close returns. *)
+Theorem c14_reset_handshake_close_returns :
+  forall evs s, rk_run rk0 evs = Some s -> exists evs' s', rk_run s evs' = Some s' /\ rk_close_ret s' = true.
+Proof. exact rk_close_can_return. Qed.
+Print Assumptions c14_reset_handshake_close_returns.
 
 (* Which components fall under which theorem (computed from desc_of). *)
 Definition guarded_and_once (c : comp) : bool :=
